@@ -334,6 +334,23 @@ def tcp_wrap(ctx):
                             tag='wrap-writes%d-iss%04x%04x' % (k, hi, 0x10000 - below),
                             a=dict(writes=[200, 300, 50, 700, 1, 1500], write_gap_us=15000, shutdown=True, iss=[hi, 0x10000 - below]),
                             b=dict(writes=[300], shutdown=True), a2b=dict(), b2a=dict()))
+    # deterministic: a segment (data, or the FIN) that starts at EXACTLY sequence number 0 / 2^31 is lost and recovered by the
+    # retransmission timeout (too few later segments for three duplicate ACKs): zero is a sequence number like any other
+    for hi in (0xffff, 0x7fff):
+        for what in ('data', 'fin', 'data-first'):
+            k += 1
+            if what == 'data':        # second write starts at 0
+                a = dict(writes=[100, 100, 100], write_gap_us=20000, shutdown=True, iss=[hi, 0x10000 - 101])
+                rules = [dict(kind='data', nth=2, act='drop')]
+            elif what == 'data-first':   # ISS = 2^32 - 1: the very first byte is number 0
+                a = dict(writes=[300, 200], write_gap_us=20000, shutdown=True, iss=[hi, 0xffff])
+                rules = [dict(kind='data', nth=1, act='drop')]
+            else:                     # the FIN's number is 0
+                a = dict(writes=[700], shutdown=True, iss=[hi, 0x10000 - 701])
+                rules = [dict(kind='fin', nth=1, act='drop')]
+            scs.append(dict(v=4 if k % 2 else 6, mtu=1500, sack=(k % 2 == 0), cc='', sync=False, deadline_ms=30000, seed=k, flags={},
+                            tag='wrap-zero-rto%d-%s-iss%04x%04x' % (k, what, hi, a['iss'][1]),
+                            a=a, b=dict(writes=[50], shutdown=True), a2b=dict(rules=rules), b2a=dict()))
     # deterministic: the RECEIVER's window edges straddle the wrap: a small receive buffer, the peer's ISS a few thousand below
     # 2^32 / 2^31, so that the advertised right edge is still below the wrap point when the next edge (after the application
     # read) lies beyond it; the window must keep re-opening and the transfer must complete (C02 clauses)
